@@ -390,6 +390,12 @@ def _job(job):
             run_reader_content(c, F, fs, rule=rule, names=(name,), widths=(w,))
         elif kind == "unary":
             run_reader_unary_content(c, F, fs, rule=rule, widths=(w,))
+        elif kind == "copy_to":
+            run_copy_to_content(c, F, fs, rule=rule, widths=(w,))
+        elif kind == "copy_from":
+            run_copy_from_content(c, F, fs, rule=rule, widths=(w,))
+        elif kind == "bitreader":
+            run_bitreader_content(c, F, fs, rule=rule)
     except Exception as ex:          # fail closed, say where
         c.items.append((rule, "%s|internal" % name, False, "bit-sequence analysis of %s raised %r" % (name, ex), None, None))
     return c.items
@@ -399,9 +405,340 @@ def run_parallel(chk, F, fs, jobs):
     """jobs: list of (kind, rule, name)"""
     import multiprocessing as mp
     _FACTS[fs] = F
-    todo = [(k, fs, r, n, w) for (k, r, n) in jobs for w in ((8, 16, 32, 64, 128) if k == "writer" else (8, 16, 32, 64))]
+    WIDTHS = {"writer": (8, 16, 32, 64, 128), "copy_from": (8, 16, 32, 64, 128), "bitreader": (64,)}
+    todo = [(k, fs, r, n, w) for (k, r, n) in jobs for w in WIDTHS.get(k, (8, 16, 32, 64))]
     todo.sort(key=lambda j: j[4])          # the small words have the long unrollings: start them first
     with mp.get_context("fork").Pool(min(16, len(todo))) as pool:
         for items in pool.imap_unordered(_job, todo, chunksize=1):
             for rule, key, ok, what, detail, sample in items:
                 chk.expect(rule, key, ok, what, detail=detail, sample=sample)
+
+
+# ---- bulk copies (C08) ------------------------------------------------------------------------------------------------------
+def _strip(t):
+    while isinstance(t, tuple) and t and t[0] in ("ref", "deref"):
+        t = t[1]
+    return t
+
+
+def _paths_for(F, spec, w, C, unroll=None):
+    b = rn.find_body(F, spec.find)
+
+    def assume(num, spec=spec, w=w):
+        out = []
+        for text, goals in spec.inv(num, w):
+            out.extend(goals)
+        out.extend(spec.pre(num, w))
+        return out
+    wk = numabs.NumWalker(b, numabs.Cfg(w), F, C, assume)
+    wk.inline = spec.inline
+    if unroll:
+        wk.loops = {}
+        wk.unroll = unroll
+    return b, wk, wk.run()
+
+
+def _good_end(p):
+    if p.end[0] == "back":
+        return True
+    if p.end[0] != "return":
+        return False
+    r = p.ret
+    return not (isinstance(r, tuple) and ((r[0] == "agg" and r[3] == "Err") or r[0] == "from_residual"))
+
+
+def run_copy_to_content(chk, F, fs, rule="P5.content", widths=None):
+    """BufBitReader::copy_to (same endianness): every write_bits issued on the destination carries exactly the next bits of the
+    source - first the buffered bits (after the optional own read_bits of the excess), then every fetched word whole, in the
+    iteration that fetched it, then the leading part of the last word - and the buffer keeps exactly the rest of that last word."""
+    C = seq_contracts()
+    for spec in rn.reader_specs():
+        parts = spec.key.split(".")
+        if parts[0] != "reader" or parts[2] != "copy_to":
+            continue
+        e = parts[1]
+        BUF = ("field", ("deref", rn.SELF), "buffer")
+        BITS = ("field", ("deref", rn.SELF), "bits_in_buffer")
+        for w in spec.widths:
+            if widths is not None and w not in widths:
+                continue
+            b, wk, paths = _paths_for(F, spec, w, C)
+            num = wk.num
+            ok, why, cnt = True, None, 0
+
+            def fail(msg):
+                nonlocal ok, why
+                if ok:
+                    ok, why = False, msg
+            for p in paths:
+                if not _good_end(p):
+                    continue
+                store = wk.full_store(p.state)
+                if not lp.feasible_cached(store):
+                    continue
+                num.ctx_events = p.state["events"]
+                num.ctx_cons = p.state["cons"]
+                num.ctx_mem = p.mem
+                b0 = num.aff(BITS)
+                W2 = 2 * w
+                bf = ("S", "Bf", const(0), b0)
+                pad = ("Z", const(W2) - b0)
+                entry = {BUF: [bf, pad] if e == "be" else [pad, bf]}
+                S = Seqs(num, store, entry, {})
+                try:
+                    c = const(0)           # bits of Bf already handed over
+                    last_word = None       # (source name, used?)
+                    nwords = 0
+                    partial = None
+                    for ev in p.calls():
+                        nm = ev[1]
+                        if nm == "traits::bits::BitRead::read_bits" and _strip(ev[8][0]) == rn.SELF:
+                            k = S.aff(ev[8][1])
+                            if k is None or not S.ent_le(k, b0 - c):
+                                raise Undecided("own read_bits of more than the buffered bits")
+                            # contract of BufBitReader::read_bits on its easy path (R7): the first k buffered bits, buffer keeps the rest
+                            res = [("Z", const(64) - k), ("S", "Bf", (b0 - c - k) if e == "be" else c, k)]
+                            S.entry[("okval", ev[3])] = S.norm(res)
+                            c2 = c + k           # the buffer has dropped them; `c` advances when they are handed to the destination
+                            rest = ("S", "Bf", const(0) if e == "be" else c2, b0 - c2)
+                            padr = ("Z", const(W2) - (b0 - c2))
+                            S.own_rest = [rest, padr] if e == "be" else [padr, rest]
+                            continue
+                        if nm == "traits::words::WordRead::read_word":
+                            if last_word is not None and not last_word[1]:
+                                fail("a word fetched by copy_to is neither written nor buffered before the next one is fetched")
+                            nwords += 1
+                            name = "w%d" % nwords
+                            S.sources[("okval", ev[3])] = (name, w)
+                            last_word = [name, False]
+                            continue
+                        if nm == "traits::bits::BitWrite::write_bits" and _strip(ev[8][0]) != rn.SELF:
+                            kk = S.aff(ev[8][2])
+                            val = S.seq(ev[8][1])
+                            if kk is None or val is None:
+                                raise Undecided("operand of write_bits not understood: %s" % mir.fmt(ev[8][1])[:120])
+                            up, field = S.split_low(val, kk)
+                            if last_word is None:
+                                want = [("S", "Bf", (b0 - c - kk) if e == "be" else c, kk)]
+                                c = c + kk
+                            else:
+                                want = [("S", last_word[0], (const(w) - kk) if e == "be" else const(0), kk)]
+                                if last_word[1]:
+                                    fail("a fetched word is written twice")
+                                last_word[1] = True
+                                partial = (last_word[0], kk)
+                            cnt += 1
+                            if not S.same(field, S.norm(want)):
+                                fail("a write_bits of copy_to carries %s; the next bits of the source are %s" % (S.fmt(field), S.fmt(S.norm(want))))
+                    if p.end[0] == "return":
+                        b1 = num.aff(p.mem.get(BITS, BITS))
+                        buf1 = S.seq(p.mem.get(BUF, BUF))
+                        if last_word is None:
+                            rest_len = b0 - c
+                            rest = [("S", "Bf", const(0) if e == "be" else c, rest_len)]
+                        else:
+                            if not last_word[1]:
+                                fail("the last fetched word is not written")
+                            kk = partial[1]
+                            rest_len = const(w) - kk
+                            rest = [("S", partial[0], const(0) if e == "be" else kk, rest_len)]
+                        want = S.norm(rest + [("Z", const(W2) - rest_len)]) if e == "be" else S.norm([("Z", const(W2) - rest_len)] + rest)
+                        cnt += 1
+                        if buf1 is None or not S.ent_eq(b1, rest_len) or not S.same(buf1, want):
+                            fail("after copy_to the buffer is %s with %s valid bits; the stream requires %s" % (S.fmt(buf1), b1, S.fmt(want)))
+                except Undecided as ex:
+                    import os, traceback
+                    if os.environ.get("SEQ_DEBUG"):
+                        traceback.print_exc()
+                    fail("layout cannot be decided on a path: %s" % ex)
+            key0 = "%s@u%d%s" % (spec.key, w, "" if fs == "default" else "@" + fs)
+            chk.expect(rule, key0, ok and cnt > 0, "%s, word u%d: %s" % (b["path"], w, why or "no path analysed"),
+                       detail={"fn": b["path"], "cfg": "u%d" % w, "why": why}, sample={"fn": spec.key, "cfg": "u%d" % w, "checked": cnt})
+
+
+def run_copy_from_content(chk, F, fs, rule="P5.content", widths=None):
+    """BufBitWriter::copy_from (same endianness): with P the pending bits and r_1, r_2, ... the values returned by the source's
+    read_bits(k_i) calls (contract of BitRead, shown for BufBitReader by C02.R7: the k_i low bits are the next k_i stream bits,
+    the rest is zero), the first word delivered is P ++ r_1, every further word is exactly the W bits read in the same iteration,
+    and the buffer keeps exactly the last value read; words wider than 64 bits forward each value read to the own write_bits."""
+    C = seq_contracts()
+    for spec in rn.writer_specs():
+        parts = spec.key.split(".")
+        if parts[-1] != "copy_from":
+            continue
+        e = parts[1]
+        BUF = ("field", ("deref", rn.SELF), "buffer")
+        SPACE = ("field", ("deref", rn.SELF), "space_left_in_buffer")
+        for w in spec.widths:
+            if widths is not None and w not in widths:
+                continue
+            b, wk, paths = _paths_for(F, spec, w, C)
+            num = wk.num
+            ok, why, cnt = True, None, 0
+
+            def fail(msg):
+                nonlocal ok, why
+                if ok:
+                    ok, why = False, msg
+            for p in paths:
+                if not _good_end(p):
+                    continue
+                store = wk.full_store(p.state)
+                if not lp.feasible_cached(store):
+                    continue
+                num.ctx_events = p.state["events"]
+                num.ctx_cons = p.state["cons"]
+                num.ctx_mem = p.mem
+                sl0 = num.aff(SPACE)
+                pw0 = const(w) - sl0
+                pend = ("S", "P", const(0), pw0)
+                junk = ("X", sl0)
+                entry = {BUF: [junk, pend] if e == "be" else [pend, junk]}
+                S = Seqs(num, store, entry, {})
+                try:
+                    reads = []            # [name, k, used]
+                    nwords = 0
+                    for ev in p.calls():
+                        nm = ev[1]
+                        if nm == "traits::bits::BitRead::read_bits" and _strip(ev[8][0]) != rn.SELF:
+                            k = S.aff(ev[8][1])
+                            if k is None:
+                                raise Undecided("width of a read_bits not affine")
+                            if reads and not reads[-1][2] and p.end[0] != "back":
+                                fail("a value read from the source is neither written nor buffered before the next read")
+                            name = "r%d" % (len(reads) + 1)
+                            S.entry[("okval", ev[3])] = S.norm([("Z", const(64) - k), ("S", name, const(0), k)])
+                            reads.append([name, k, False])
+                            continue
+                        if nm == "traits::bits::BitWrite::write_bits" and _strip(ev[8][0]) == rn.SELF:
+                            # words wider than 64 bits: the value just read goes to the own write_bits with its own width
+                            kk = S.aff(ev[8][2])
+                            val = S.seq(ev[8][1])
+                            cnt += 1
+                            if not reads or kk is None or val is None or not S.ent_eq(kk, reads[-1][1]) or \
+                                    not S.same(S.split_low(val, kk)[1], [("S", reads[-1][0], const(0), reads[-1][1])]):
+                                fail("the own write_bits of copy_from does not carry the value just read with its width")
+                            elif reads:
+                                reads[-1][2] = True
+                            continue
+                        if nm == "traits::words::WordWrite::write_word":
+                            word = S.seq(ev[8][1])
+                            nwords += 1
+                            if not reads:
+                                raise Undecided("a word is delivered before anything was read")
+                            r = reads[-1]
+                            if nwords == 1 and len(reads) == 1 and p.end[0] != "back" or (nwords == 1 and len(reads) == 1):
+                                want = [pend, ("S", r[0], const(0), r[1])] if e == "be" else [("S", r[0], const(0), r[1]), pend]
+                                okw = S.ent_eq(r[1], sl0)
+                            else:
+                                want = [("S", r[0], const(0), r[1])]
+                                okw = S.ent_eq(r[1], const(w))
+                            cnt += 1
+                            if r[2]:
+                                fail("a value read from the source is delivered twice")
+                            r[2] = True
+                            if word is None or not okw or not S.same(word, S.norm(want)):
+                                fail("word #%d delivered by copy_from is %s; the stream requires %s" % (nwords, S.fmt(word), S.fmt(S.norm(want))))
+                    if p.end[0] == "return" and w <= 64:
+                        sl1 = num.aff(p.mem.get(SPACE, SPACE))
+                        pw1 = const(w) - sl1
+                        buf1 = S.seq(p.mem.get(BUF, BUF))
+                        if not reads:
+                            raise Undecided("copy_from returned without reading")
+                        r = reads[-1]
+                        if nwords == 0 and len(reads) == 1:
+                            want = [pend, ("S", r[0], const(0), r[1])] if e == "be" else [("S", r[0], const(0), r[1]), pend]
+                            wlen = pw0 + r[1]
+                        else:
+                            want = [("S", r[0], const(0), r[1])]
+                            wlen = r[1]
+                            if r[2]:
+                                fail("the last value read is both delivered and kept")
+                        cnt += 1
+                        okb = buf1 is not None and S.ent_eq(pw1, wlen)
+                        if okb:
+                            got = S.split_low(buf1, pw1)[1] if e == "be" else S.split_low(buf1, sl1)[0]
+                            okb = S.same(got, S.norm(want))
+                        if not okb:
+                            fail("after copy_from the buffer is %s with %s pending bits; the stream requires %s" % (S.fmt(buf1), pw1, S.fmt(S.norm(want))))
+                except Undecided as ex:
+                    import os, traceback
+                    if os.environ.get("SEQ_DEBUG"):
+                        traceback.print_exc()
+                    fail("layout cannot be decided on a path: %s" % ex)
+            key0 = "%s@u%d%s" % (spec.key, w, "" if fs == "default" else "@" + fs)
+            chk.expect(rule, key0, ok and cnt > 0, "%s, word u%d: %s" % (b["path"], w, why or "no path analysed"),
+                       detail={"fn": b["path"], "cfg": "u%d" % w, "why": why}, sample={"fn": spec.key, "cfg": "u%d" % w, "checked": cnt})
+
+
+def run_bitreader_content(chk, F, fs, rule="R7.content", widths=None):
+    """unbuffered BitReader (u64 words): read_bits(n) / peek_bits(n) seek the backend to word bit_index / 64 and return exactly
+    the n bits that start at offset bit_index % 64 of the words fetched from there (zero-extended); BE: offsets count from the
+    most significant bit of the first word, LE: from the least significant bit."""
+    C = seq_contracts()
+    for spec in rn.reader_specs():
+        parts = spec.key.split(".")
+        if parts[0] != "bitreader" or parts[2] not in ("read_bits", "peek_bits"):
+            continue
+        e, nm = parts[1], parts[2]
+        BI = ("field", ("deref", rn.SELF), "bit_index")
+        w = 64
+        b, wk, paths = _paths_for(F, spec, w, C)
+        num = wk.num
+        ok, why, cnt = True, None, 0
+
+        def fail(msg):
+            nonlocal ok, why
+            if ok:
+                ok, why = False, msg
+        for p in paths:
+            if p.end[0] != "return" or re_.ok_value(p) is None:
+                continue
+            store = wk.full_store(p.state)
+            if not lp.feasible_cached(store):
+                continue
+            num.ctx_events = p.state["events"]
+            num.ctx_cons = p.state["cons"]
+            num.ctx_mem = p.mem
+            S = Seqs(num, store, {}, {})
+            n = num.aff(("arg", 2, "n_bits"))
+            q = num.aff(("binop", "Div", BI, ("const", 64, "u64")))
+            r = num.aff(("binop", "Rem", BI, ("const", 64, "u64")))
+            try:
+                words = []
+                seeks = []
+                for ev in p.calls():
+                    if ev[1] == "traits::words::WordRead::read_word":
+                        name = "w%d" % len(words)
+                        S.sources[("okval", ev[3])] = (name, 64)
+                        words.append(name)
+                    if ev[1] == "traits::words::WordSeek::set_word_pos":
+                        seeks.append(S.aff(ev[8][1]))
+                res = re_.ok_value(p)
+                got = S.seq(res)
+                rw = S.width(res)
+                if not words:
+                    # n = 0: nothing is fetched and zero is returned
+                    cnt += 1
+                    if not (S.ent_eq(n, const(0)) and got is not None and S.same(got, [("Z", const(rw))])):
+                        fail("a path that fetches no word returns %s for n_bits = %s" % (S.fmt(got), n))
+                    continue
+                if q is None or r is None or len(seeks) != 1 or seeks[0] is None or not S.ent_eq(seeks[0], q):
+                    fail("the backend is not positioned at word bit_index / 64 before the fetch (seek argument %s)" % (seeks[0] if seeks else None))
+                    continue
+                segs = [("S", nm_, const(0), const(64)) for nm_ in words]
+                U = segs if e == "be" else list(reversed(segs))
+                LU = const(64 * len(words))
+                first = slice_of(S, S.norm(U), (LU - r - n) if e == "be" else r, n)
+                want = S.norm([("Z", const(rw) - n)] + first)
+                cnt += 1
+                if got is None or not S.same(got, want):
+                    fail("with %d word(s) fetched the value returned is %s; the stream requires %s" % (len(words), S.fmt(got), S.fmt(want)))
+            except Undecided as ex:
+                import os, traceback
+                if os.environ.get("SEQ_DEBUG"):
+                    traceback.print_exc()
+                fail("layout cannot be decided on a path: %s" % ex)
+        key0 = "%s@u64%s" % (spec.key, "" if fs == "default" else "@" + fs)
+        chk.expect(rule, key0 + "|result", ok and cnt > 0, "%s: %s" % (b["path"], why or "no path analysed"),
+                   detail={"fn": b["path"], "why": why}, sample={"fn": spec.key, "paths": cnt})
